@@ -68,6 +68,11 @@ Fixpoint run_live (L : Z) (ht : htable) (st : lstore) (mm : list (option nat)) (
               end
           end
       end
+  | LA (ATabGrow mn n res) :: r =>
+      match tab_grow st mm mn n with
+      | None => [(i, 1, -2)]
+      | Some (st', out) => if out =? res then run_live L ht st' mm r (i + 1) else [(i, 1, out)]
+      end
   | LA (ASnap mn gl mem pages) :: r =>
       match nth mn mm None with
       | None => [(i, 2, -2)]
